@@ -2,6 +2,7 @@
 """Regenerate /verif/seeded/README.md from the meta.json files."""
 import json,glob,os
 rows=[]
+strengthened=json.load(open('/verif/seeded/STRENGTHENED.json')) if os.path.exists('/verif/seeded/STRENGTHENED.json') else {}
 for m in sorted(glob.glob('/verif/seeded/*/meta.json')):
     d=json.load(open(m)); sid=os.path.basename(os.path.dirname(m))
     notes=os.path.join(os.path.dirname(m),'NOTES.md')
@@ -14,6 +15,8 @@ for m in sorted(glob.glob('/verif/seeded/*/meta.json')):
     caught=d.get('caught_by')
     if not caught:
         caught='quick' if d.get('caught_by_quick_check') else 'MISSED (quick)'
+    if sid in strengthened:
+        caught+=' — '+strengthened[sid]
     rows.append((sid,d['property'],'yes' if d.get('confirmed') else 'NO',caught,' '.join(d.get('violation_fingerprints',[])[:3]),first))
 out=["# Independently seeded changes","",
 "Each directory holds a change to go-ethereum written by a sub-agent that saw only the property text",
